@@ -244,6 +244,39 @@ theorem no_chain_survives (cat : Catalog) (ops : List VOp) (r r' : Row) (hr : r 
   obtain ⟨h1, h2, h3, h4⟩ := vacuum_row_shape _ _ (vreach_rel cat ops).1 r r' hr hv
   exact ⟨h1, h2, h3, fun w hw => (h4 w hw).1⟩
 
+/-- **The general bound**, for arbitrary work before the VACUUM: what is stored afterwards is one version per surviving row plus
+    the versions that the single transaction which committed last had stacked below the heads.  Nothing older than the
+    horizon is kept, so chains cannot grow from one VACUUM to the next. -/
+theorem size_after_vacuum_le (cat : Catalog) (ops : List VOp) :
+    ((reached cat ops).vacuum Defects.none VDefects.none).size ≤
+      ((reached cat ops).vacuum Defects.none VDefects.none).rows.length +
+        stackedBy (reached cat ops).lastCommitted (reached cat ops).rows := by
+  unfold State.size
+  rw [vacuum_rows]
+  exact sizeRows_vacuum_le _ _ (vreach_rel cat ops).1 _ (fun r hr => hr)
+
+/-- **VACUUM ends the open sessions.**  In the specification every session that is open when VACUUM runs is gone afterwards:
+    whatever it tries next — a statement, COMMIT, ROLLBACK — is answered `noSession`, in every reachable state.  (Its writes are
+    rolled back: `vacuum_refines_spec` relates the VACUUM to the abstract machine's `quiesce`, which forgets every open
+    transaction.)  This is what `vacuum_keeps_open_sessions_consistent` has to mean for a VACUUM that aborts all active
+    transactions: such a session gets errors, never a mix of old and new data. -/
+theorem vacuum_ends_open_sessions (cat : Catalog) (ops : List VOp) (s : String) (st : Stmt) :
+    let τ := vfinal Defects.none VDefects.none (VState.init cat) (ops ++ [.vacuum])
+    (vstep Defects.none VDefects.none τ (.op (.exec s st))).2 = .out .noSession ∧
+    (vstep Defects.none VDefects.none τ (.op (.commit s))).2 = .out .noSession ∧
+    (vstep Defects.none VDefects.none τ (.op (.rollback s))).2 = .out .noSession ∧ τ.db.sessions = [] := by
+  intro τ
+  have hrel0 := vreach_rel cat ops
+  have hk : τ.killed = [] := by
+    have := (vstep_ok _ _ hrel0 .vacuum).2.2
+    simp only [τ, vfinal_append]; exact this
+  have hs : τ.db.sessions = [] := by
+    simp only [τ, vfinal_append, vfinal, vstep]
+    show (State.vacuumWith D0 false (vacuumRows V0) _ _).sessions = []
+    simp only [State.vacuumWith]
+    rw [commitTxn_sessions]; rfl
+  simp [vstep, hk, step, stepCore, hs, lookup]
+
 /-- **VACUUM frees space**: it never stores more than before — in any state, for any defect setting -/
 theorem vacuum_size_le (D : Defects) (V : VDefects) (σ : State) : (σ.vacuum D V).size ≤ σ.size := by
   unfold State.size State.vacuum State.vacuumWith
